@@ -28,6 +28,7 @@ var scenarioPB = map[string]int{}
 
 type schedTotals struct {
 	Executions, Points, Divergences, Horizons int
+	Accesses, MaxThreads                      int
 	Outcomes                                  map[string]int
 	Capped                                    bool
 	PB, DB                                    int
@@ -68,6 +69,10 @@ func exploreScenariosShard(rep *Reporter, scs []schedScenario, maxPB, maxDB int,
 		tot.Points += st.Points
 		tot.Divergences += st.Divergences
 		tot.Horizons += st.Horizons
+		tot.Accesses += st.Accesses
+		if st.MaxThreads > tot.MaxThreads {
+			tot.MaxThreads = st.MaxThreads
+		}
 		tot.Capped = tot.Capped || st.Capped
 		for k, n := range st.Outcomes {
 			tot.Outcomes[sc.Name+": "+k] += n
@@ -97,6 +102,8 @@ func (t *schedTotals) coverage(extra map[string]any) map[string]any {
 		"switch_bound":                  schedSwitchBound,
 		"replay_divergences":            t.Divergences,
 		"horizon_hits":                  t.Horizons,
+		"max_threads":                   t.MaxThreads,
+		"race_detector_accesses":        t.Accesses,
 		"samples":                       t.Samples,
 		"exhaustive":                    !t.Capped && t.Divergences == 0 && t.Horizons == 0,
 		"explanation":                   "every execution runs the instrumented implementation under the cooperative scheduler; 'states' counts distinct final outcomes, 'transitions' scheduling points executed",
@@ -227,6 +234,10 @@ func exploreSharded(rep *Reporter, id string, scs []schedScenario, pb, db, maxSt
 		tot.Points += o.Tot.Points
 		tot.Divergences += o.Tot.Divergences
 		tot.Horizons += o.Tot.Horizons
+		tot.Accesses += o.Tot.Accesses
+		if o.Tot.MaxThreads > tot.MaxThreads {
+			tot.MaxThreads = o.Tot.MaxThreads
+		}
 		tot.Capped = tot.Capped || o.Tot.Capped
 		for k, c := range o.Tot.Outcomes {
 			tot.Outcomes[k] += c
